@@ -59,6 +59,7 @@ Inductive SRen (F : nat) (d : nat) (rest : list token) : rstmt -> list token -> 
                       /\ S d + pdepth c' < max_nesting /\ xsize c <= F)) ->
     SRen F d rest (SFor v a b stp) (TFor :: TSymbol v :: TEquals :: ta ++ TTo :: tb ++ tstep)
 | SR_next v : SRen F d rest (SNext v) [TNext; TSymbol v]
+| SR_rem b : SRen F d rest SRem [TRemark b]
 | SR_if_stmt c c' tc stmt tn : tr c = Some c' -> Renders 0 c' tc -> S d + pdepth c' < max_nesting -> xsize c <= F ->
     Nat.eqb (S d) max_nesting = false -> SRen F (S d) rest stmt tn ->
     SRen F d rest (SIf c (AStmt stmt) None) (TIf :: tc ++ TThen :: tn).
@@ -765,6 +766,27 @@ Section Step.
         left. split; [reflexivity|]. cbn. f_equal. lia.
   Qed.
 
+  (* REM *)
+  Lemma step_rem b rest i :
+    skipn i toks = [TRemark b] ++ rest ->
+    steps_as SRem i [TRemark b].
+  Proof.
+    intros Hsk. cbn [app] in Hsk. destruct (skipn_cons_nth _ _ _ _ Hsk) as [H0 _].
+    exists 1. intros fuel Hf r o. destruct fuel as [|f]; [lia|].
+    unfold step_result, step_outcome. cbn [exec].
+    cbn [evaluate_statement]. rewrite Hd.
+    unfold evaluate_statement_body.
+    rewrite bind_get_run. change (enable_tracing (at_idx s i r o)) with (enable_tracing s). rewrite Htrace. cbv iota.
+    rewrite bind_ret'.
+    erewrite bind_ok by (apply (next_some s toks Htoks); exact H0). cbv iota beta. cbn [ret].
+    eexists. split; [reflexivity|]. split; [apply keeps_at|].
+    split; [apply same_store_at; destruct Hrel as [A B]; split; [exact A | exact B]|].
+    split; [reflexivity|]. split; [intros HT; exact HT|].
+    split; [left; split; reflexivity|]. split; [left; split; reflexivity|].
+    split; [exists []; split; [rewrite app_nil_r; reflexivity | cbn; rewrite app_nil_r; reflexivity]|].
+    left. split; [reflexivity|]. cbn. f_equal. lia.
+  Qed.
+
   (* END *)
   Lemma step_end rest i :
     skipn i toks = [TEnd] ++ rest -> immediate s = [] ->
@@ -1000,7 +1022,7 @@ Lemma SRen_plain F d rest stmt ts : SRen F d rest stmt ts -> forallb plain_tok t
 Proof.
   induction 1 as [d rest v e e' te H1 H2 H3 H4 H5|d rest items mitems ti H1 H2 H3 H4|d rest n x H1|d rest n x H1|d rest|d rest
                  |d rest c c' tc n x H1 H2 H3 H4 H5
-                 |d rest v a a' ta b b' tb stp tstep A1 A2 A3 A4 B1 B2 B3 B4 HC|d rest v
+                 |d rest v a a' ta b b' tb stp tstep A1 A2 A3 A4 B1 B2 B3 B4 HC|d rest v|d rest b0
                  |d rest c c' tc stmt tn H1 H2 H3 H4 H5 H6 IH]; try reflexivity.
   - cbn [forallb]. rewrite (Renders_plain _ _ _ H2). reflexivity.
   - cbn [forallb]. rewrite (IRenders_plain _ _ _ H2). reflexivity.
@@ -1552,7 +1574,7 @@ Section Program.
     revert i Hd Hsk Hrest.
     induction HS as [d rest v e e' te H1 H2 H3 H4 H5|d rest items mitems ti H1 H2 H3 H4|d rest n x H1|d rest n x H1|d rest|d rest
                     |d rest c c' tc n x H1 H2 H3 H4 H5
-                    |d rest v a a' ta b b' tb stp tstep A1 A2 A3 A4 B1 B2 B3 B4 HC|d rest v
+                    |d rest v a a' ta b b' tb stp tstep A1 A2 A3 A4 B1 B2 B3 B4 HC|d rest v|d rest b0
                     |d rest c c' tc stmt tn H1 H2 H3 H4 H5 H6 IH]; intros i Hd Hsk Hrest.
     - eapply (step_let F p s toks Htoks Htr Hw d Hd li after st Hrel v e e' te rest i); eassumption.
     - eapply (step_print F p s toks Htoks Htr Hw d Hd li after st Hrel items mitems ti rest i); eassumption.
@@ -1567,6 +1589,7 @@ Section Program.
     - eapply (step_for F p s toks Htoks Htr Hw d Hd li after st Hrel v a a' ta b b' tb stp tstep rest i); try eassumption.
       apply loops_lsame. exact Hlr.
     - eapply (step_next F p s toks Htoks Htr Hw d Hd li after st Hrel v rest i); [exact Hsk | apply loops_lsame; exact Hlr | exact Hty].
+    - eapply (step_rem F p s toks Htoks Htr Hw d Hd li after st Hrel b0 rest i). exact Hsk.
     - destruct (SRen_head _ _ _ _ _ H6) as (t0 & tn' & Etn & Hnum).
       apply (step_if_stmt F p s toks Htoks Htr Hw (Inv_lines s HI) (calls_land st s Hcr) (loops_land st s Hlr)
                d Hd li after st Hrel c c' tc stmt tn t0 tn' rest i Hsk Hrest H1 H2 H3 H4 Etn Hnum (SRen_plain _ _ _ _ _ H6)).
